@@ -52,12 +52,12 @@ def St.setHandle (s : St) (hp : Heap) (h : Nat) (x : HInfo) (t : Handle) : St :=
   { hp := hp, hs := setAt s.hs h { x with t := t } }
 
 /-- `DeepCopy` of the structure below `a` into fresh cells (specification run only) -/
-def deepCopyF : Nat → Heap → Option Addr → Heap × Option Addr
+def deepCopyF : Nat → Heap → Option Nat → Heap × Option Nat
   | _, hp, none => (hp, none)
   | 0, hp, some _ => (hp, none)
   | f + 1, hp, some a =>
     let n := hp.get a
-    let r := (List.finRange 16).foldl (fun (acc : Heap × (Nib → Option Addr)) i =>
+    let r := (List.finRange 16).foldl (fun (acc : Heap × (Nib → Option Nat)) i =>
       let c := deepCopyF f acc.1 (n.kids i)
       (c.1, setKid acc.2 i c.2)) (hp, noKids)
     let x := r.1.alloc { n with kids := r.2 }
